@@ -170,6 +170,19 @@ def main():
         table_info = {"recognised_in_source": sorted(k for k, v in (tabs or {}).items() if v is not None),
                       "unavailable": sorted(k for k, v in (tabs or {}).items() if v is None)}
 
+    # 1b. platform assertions: the model's account of the Python built-ins (Py.lean) against this interpreter; independent of
+    # /repo, so a failure is an infrastructure error (the trusted base does not fit this Python), never a VIOLATION
+    platform_info = None
+    if (a.tier == "thorough" or getattr(mod, "PLATFORM_ASSERTIONS", False)) and os.path.exists(core.DRIVER):
+        import platform_assertions
+        pn, pcounts, pfails = platform_assertions.run(seed)
+        platform_info = {"assertions": pn, "by_primitive": pcounts, "failures": pfails[:20]}
+        if pfails:
+            print(f"INFRA: {len(pfails)} of {pn} platform assertions failed: the model's account of a Python built-in does not hold on this interpreter")
+            for f in pfails[:10]:
+                print("  ", f)
+            return 2
+
     # 2. obligations
     theorems = list(mod.OBLIGATIONS)
     aud = {"theorems": {}, "checker_cmd": ""}
@@ -336,6 +349,7 @@ def main():
             "exhaustive": bool(getattr(mod, "EXHAUSTIVE", {}).get(a.tier, False)),
         },
         "tables_tied_to_source": table_info,
+        "platform_assertions": platform_info,
         "independent_recheck": ({k: lc[k] for k in ("cmd", "rc", "wall_s")} | {"modules": len(lc["modules"])}) if lc else None,
         "implementation_line_coverage": core.coverage_report(),
         "assumptions": getattr(mod, "ASSUMPTIONS", []),
